@@ -812,9 +812,14 @@ func GenProgram(r *Rng, prop string, cfg Config, gp GenParams) *Program {
 			// collection is read afterwards and closed last
 			add(Step{K: "batch", B: g.batch()})
 			add(Step{K: "merge", A: "plain"})
-			if r.Chance(2, 3) {
+			switch r.Intn(3) {
+			case 0:
 				add(Step{K: "persist", P: "store.persist.end"})
-			} else {
+			case 1:
+				// the store is closed under a round (often a compaction)
+				// that is still in flight
+				add(Step{K: "persist", P: persisterParks[1+r.Intn(len(persisterParks)-1)]})
+			default:
 				add(Step{K: "persist"})
 			}
 			add(Step{K: "closestore", A: "first"})
